@@ -1,5 +1,6 @@
 """C16 - audio FIFO: every queued word is output once, in order, one frame per period (structural parts)."""
 from .. import mmio
+from ..facts import AnalysisBroken
 from ..astq import walk, walk_parents, field_path, unwrap_casts, const_value, direct_writes
 from ..guards import guards_at
 from ..norm import render, render_stmt, Renderer, short_fn
@@ -109,23 +110,51 @@ def run(ctx):
         f = fns[name]
         r = Renderer(f, inline_locals=False)
         ctx.inst(Q3)
-        loops = [n for n in walk(f['body']) if n.get('k') == 'for' and any(k == 'pop' for k, _ in queue_ops({'body': n}, r))]
+        loops = [n for n in walk(f['body']) if n.get('k') in ('for', 'rangefor') and any(k == 'pop' for k, _ in queue_ops({'body': n}, r))]
         loops = [n for n in loops if not any(m is not n and any(x is m for x in walk(n)) for m in loops)]
         if len(loops) != 1:
             ctx.report(Q3, f, f['body'], name + ' frame loop', 'expected one two-word frame loop, found %d' % len(loops))
             continue
         lp = loops[0]
-        var = [v for v in walk(lp.get('init')) if v.get('k') == 'var']
-        cond = r.r(lp.get('cond'))
-        if not var or const_value(var[0].get('init')) != 0 or not cond.endswith(' 2)') or not cond.startswith('(< l:'):
-            ctx.report(Q3, f, lp, name + ' frame loop bounds', 'a frame is not built from exactly two words: ' + cond)
-        t = r.s(lp['body'])
         sample = [v['name'] for v in walk(f['body']) if v.get('k') == 'var' and 'std::array<short, 2>' in v.get('t', '')]
         sv = sample[0] if sample else 'sample'
-        iv = 'l:' + var[0]['name'] if var else '?'
-        need = ['(if %s' % EMPTY, '(= ([] l:%s %s) 0)' % (sv, iv), '(= ([] l:%s %s) (call %s::front on %s ))' % (sv, iv, QT, Q), '(call %s::pop on %s )' % (QT, Q)]
-        if not all(x in t for x in need) or t.find(need[2]) > t.find(need[3]):
-            ctx.report(Q3, f, lp, name + ' frame body', 'frame word is not `empty ? 0 : front(); pop()`: ' + t[:300])
+        # two words per frame: a counting loop over two values, or a loop over the two-element frame itself
+        from ..loops import loop_range
+        two = False
+        if lp.get('k') == 'for':
+            rng = loop_range(f, lp)
+            if rng is not None:
+                two = len(range(rng[1], rng[2], rng[3])) == 2
+            else:
+                raise AnalysisBroken('C16: %s: the frame loop is not a counting loop the analysis can bound: %s' % (name, r.r(lp.get('cond'))[:120]))
+        elif lp.get('k') == 'rangefor':
+            two = r.r(lp.get('range')) == 'l:' + sv
+            if not two:
+                raise AnalysisBroken('C16: %s: the frame loop ranges over %s' % (name, r.r(lp.get('range'))[:80]))
+        if not two:
+            ctx.report(Q3, f, lp, name + ' frame loop bounds', 'a frame is not built from exactly two words: ' + r.s(lp)[:120])
+        # per word: empty ? 0 : front() then pop() - as guarded effects of the loop body, whatever the phrasing
+        from .. import summ, boolform
+        SMb = summ.summary_of(ctx, f, [lp['body']] if lp.get('body') is not None else [])
+        EA = boolform.A(EMPTY)
+        FRONT = '(call %s::front on %s )' % (QT, Q)
+        POP = '(call %s::pop on %s )' % (QT, Q)
+        okb = True
+        seen_empty = seen_word = False
+        for cond, seq, p_ in SMb.effect_sequences(lambda e: e[0] == 'write' and ('l:' + sv in e[1] or 'elem@' in e[1] or e[1].startswith('(* ')) or (e[0] == 'call' and e[1] in (POP,))):
+            if boolform.implies(cond, EA) is True:
+                seen_empty = True
+                if [e for e in seq if e[0] == 'write'] and [e[3] for e in seq if e[0] == 'write'] != ['0'] or any(e[0] == 'call' for e in seq):
+                    okb = False
+            elif boolform.implies(cond, boolform.neg(EA)) is True:
+                seen_word = True
+                kinds = [(e[0], e[3] if e[0] == 'write' else e[1]) for e in seq]
+                if kinds[:2] != [('write', FRONT), ('call', POP)]:
+                    okb = False
+            else:
+                okb = False
+        if not (okb and seen_empty and seen_word):
+            ctx.report(Q3, f, lp, name + ' frame body', 'frame word is not `empty ? 0 : front(); pop()`: ' + r.s(lp['body'])[:300])
         # exactly one audio callback per frame, after the word loop, with the frame
         inv = [n for n in walk(f['body']) if n.get('k') == 'opcall' and n.get('op') == '()' and field_path(n['args'][0]) == (B, 'audio_callback', None)]
         if len(inv) != 1 or r.r(inv[0]['args'][1]) != 'l:' + sv or any(x is inv[0] for x in walk(lp)):
